@@ -31,7 +31,7 @@ func TestMain(m *testing.M) {
 		kit.TestMain(m, 45, 1000)
 		return
 	}
-	kit.TestMain(m, 225, 4000)
+	kit.TestMain(m, 215, 4000)
 }
 
 // Case is a set of histories on distinct documents plus the two schedules they are executed under.
@@ -237,6 +237,14 @@ func genCase(t *rapid.T) Case {
 		batch = rapid.IntRange(0, len(mdcPresets)-1).Draw(t, "batch-preset")
 	}
 	large := rapid.IntRange(0, 19).Draw(t, "large") == 19 // shrinks towards "no"
+	// ondemand.go: histories that lose styles which the library registers again on demand, and histories with a failing
+	// call on the engine that serves all documents of the run
+	pruned := rapid.IntRange(0, 7).Draw(t, "pruned-case") == 7   // shrinks towards "no"
+	engFail := rapid.IntRange(0, 9).Draw(t, "engfail-case") == 9 // shrinks towards "no"
+	var pruneIDs []string
+	if pruned {
+		pruneIDs = caseIDs(t)
+	}
 	bulkCase := rapid.IntRange(0, 7).Draw(t, "bulk-case") == 7
 	if large && maxOps > 8 {
 		maxOps = kit.Scale(8, 16)
@@ -274,6 +282,15 @@ func genCase(t *rapid.T) Case {
 			h = insertAt(h, rapid.IntRange(len(h)/2, len(h)).Draw(t, "large-at"), bulkOp(t, true))
 		} else if bulkCase && rapid.Bool().Draw(t, "bulk") {
 			h = insertAt(h, rapid.IntRange(0, len(h)).Draw(t, "bulk-at"), bulkOp(t, false))
+		}
+		if pruned && rapid.IntRange(0, 3).Draw(t, "pruned-doc") > 0 {
+			if len(h) > maxOps/2 {
+				h = h[:maxOps/2]
+			}
+			h = withPruneBlock(t, cfg, h, pruneIDs)
+		}
+		if engFail {
+			h = withEngineFail(t, cfg, h)
 		}
 		if len(prefix) > 0 {
 			var hp []ops.Op
@@ -347,6 +364,7 @@ type docRun struct {
 	x        *ops.Exec
 	outcomes []string
 	dead     bool // an op panicked: the state is undefined, later ops are not executed
+	hung     bool // ... or did not return
 
 	// I4: documents of this history that stopped being the current one (template bases, earlier renders, the
 	// document before a markdown conversion). Nobody touches them afterwards, so they must not change.
@@ -482,6 +500,11 @@ func (r *docRun) step(o ops.Op) {
 	case p != nil:
 		r.outcomes = append(r.outcomes, fmt.Sprintf("%s:panic:%v", o.K, p))
 		r.dead = true
+	case err == errHang:
+		// a call on an object that serves other documents as well did not come back (ondemand.go); the goroutine
+		// that made the call is abandoned and the history ends here
+		r.outcomes = append(r.outcomes, o.K+":hang")
+		r.dead, r.hung = true, true
 	case err != nil:
 		r.outcomes = append(r.outcomes, o.K+":err:"+err.Error())
 	case extra != "":
@@ -989,6 +1012,25 @@ func run(c Case) *kit.Result {
 	if engDocs >= 2 {
 		res.Label("engine:shared-by-documents")
 	}
+	prunedDocs := 0
+	for d, h := range c.Docs {
+		if isPruned(h) {
+			prunedDocs++
+		}
+		for _, o := range h {
+			if !isPooledFail(o) {
+				continue
+			}
+			for e, g := range c.Docs {
+				if e != d && (hasKind(g, "tplc") || hasKind(g, "tpldc")) {
+					res.Label("engine:failed-call-and-loads-of-other-documents")
+				}
+			}
+		}
+	}
+	if prunedDocs >= 2 {
+		res.Label("ondemand:styles-removed-then-toc-in-several-documents")
+	}
 	if n >= 9 {
 		res.Label("docs:9-or-more")
 	}
@@ -1026,6 +1068,16 @@ func run(c Case) *kit.Result {
 		ar, alone[d] = runAloneRun(base, d, c.Docs[d], true)
 		res.Eval("C07.I4")
 		reportI4("built alone", d, ar.i4)
+		if ar.hung && hasPooledFail(c.Docs[d]) {
+			// I5 for a history that does not come to its end: the failing calls on the pooled engine made no document, so
+			// they are calls on no document of the lineage; with an engine of their own the history must end the same way
+			res.Eval("C07.I5")
+			if pr, _ := runAloneRun(base, d, ownFails(c.Docs[d]), true); !pr.hung {
+				res.Fail("C07.I5", "doc=%d: the history stops at op %d (%s: the call on the run's pooled TemplateEngine did not return) after a FAILED call on the same engine (render / lookup of an unknown template name, which made no document); with the failing calls made on an engine of their own the history runs to its end",
+					d, len(ar.outcomes)-1, ar.outcomes[len(ar.outcomes)-1])
+			}
+			continue
+		}
 		// I5: the final document of the history does not depend on the edits of the other documents of its family
 		if hp := ar.projection(c.Docs[d]); hp != nil {
 			res.Eval("C07.I5")
@@ -1195,7 +1247,8 @@ func TestC07(t *testing.T) {
 			"documents set aside inside a history are observed twice (I4); the history is executed again without the calls on other documents of its family (I5); both runs end with Save calls of all documents into one shared directory (one after the other / overlapping); " +
 			"cold cases (1 in 8, race twin 1 in 2): every history starts with the same 1-3 drawn ops and the concurrent part runs first of all in a fresh child process; " +
 			"fresh cases (1 in 12, normal binary): every history starts with 1-3 further common ops (Markdown with formulas built from a few atoms, templates, LaTeX formulas, headings, styles ...) of which each document gets its own near-equal variant (blanks inside brackets, outer blanks, double blanks, blanks at line ends, letter case), histories of at most 6 ops; every document is built once more alone in a fresh process of its own and all of them interleaved in another fresh process (I6); 1 case in 80 has 9-11 documents with at most 4 ops each and is a fresh case; " +
-			"sizes: 1 case in 20 is large (three documents in four get 450-900 paragraphs or a 160-200 pixel picture: parts of more than 64 KiB), 1 case in 8 has histories that repeat one call 10-100 times (pictures, notes, headings, list items, tables, rows, columns, styles); every second tplstr/tpldoc uses one TemplateEngine per run (shared by all documents in the interleaved run), 1 history in 10 contains a call that fails (open of garbage / of a missing file, save below a regular file, picture from a missing file, render of an unknown template, unbalanced template); " +
+			"sizes: 1 case in 20 is large (three documents in four get 450-900 paragraphs or a 160-200 pixel picture: parts of more than 64 KiB), 1 case in 8 has histories that repeat one call 10-100 times (pictures, notes, headings, list items, tables, rows, columns, styles); every second tplstr/tpldoc uses one TemplateEngine per run (shared by all documents in the interleaved run), 1 history in 10 contains a call that fails (open of garbage / of a missing file, save below a regular file, picture from a missing file, render of an unknown template, unbalanced template; render / lookup of an unknown name on the engine the documents of the run share); " +
+			"1 case in 8 is a pruned case: three histories in four remove 1-3 styles that the library registers again on demand (toc styles 12-16, Heading1; 1-2 ids per case are preferred by all documents), add headings of the matching levels, generate / update a TOC and later restyle such an id (3 in 4 in place); 1 case in 10 is an engine-fail case: two histories in three get a failing call on the shared engine and a load+render with it; a call on the shared engine that does not return within 10 s is the outcome 'hang' (compared like every outcome; I5 executes such a history again with the failing calls on an engine of their own); " +
 			"every byte slice returned by ToBytes (save ops, final) and the values returned by GetPageSettings / ListHeadings are kept and looked at again at the very end of each run; " +
 			"distinct = distinct vector of (history length, op families used) per document",
 		Gen: genCase, Run: run, Findings: fs, Fixed: fixedCases,
@@ -1211,7 +1264,8 @@ func TestC07(t *testing.T) {
 		},
 		MustSee: map[string]float64{"shared:style|header|image": 0.5, "registry:none": 0.2, "conc:cold-start": 0.05, "derived:rmnote": 0.1, "derived:swap": 0.1,
 			"converter:shared-by-documents": 0.05, "derived:style-edit-after-render-of-opened-base": 0.03,
-			"fresh:reference-in-own-process": 0.04, "large:two-documents-over-64KiB": 0.005, "bulk:more-than-64-items": 0.005},
+			"fresh:reference-in-own-process": 0.04, "large:two-documents-over-64KiB": 0.005, "bulk:more-than-64-items": 0.005,
+			"ondemand:styles-removed-then-toc-in-several-documents": 0.02, "engine:failed-call-and-loads-of-other-documents": 0.02},
 		CaseLimit: 45 * time.Second, // a cold case starts a process; the machine may be busy
 	})
 }
